@@ -88,6 +88,10 @@ fn obs_of(o: &J) -> Observation {
 
 impl Value for GenMetric<'_> {
     fn write(&self, writer: impl ValueWriter) {
+        // a value that reports a validation error of its own instead of a metric
+        if self.obs.iter().any(|o| js(o, "t", "") == "err") {
+            return writer.error(metrique_writer_core::ValidationError::invalid("the value says it is invalid"));
+        }
         let dims: Vec<(&str, &str)> = self.dims.iter().filter_map(|d| d.as_array()).filter(|a| a.len() == 2).map(|a| (a[0].as_str().unwrap_or(""), a[1].as_str().unwrap_or(""))).collect();
         writer.metric(self.obs.iter().map(obs_of), unit_of(self.unit), dims, MetricFlags::empty());
     }
@@ -113,6 +117,10 @@ impl Entry for GenEntry {
                     match ju(it, "flag", 0) {
                         1 => w.value(js(it, "name", "").to_string(), &HighStorageResolution::from(m)),
                         2 => w.value(js(it, "name", "").to_string(), &NoMetric::from(m)),
+                        // nested flags: the options of both wrappers are merged
+                        3 => w.value(js(it, "name", "").to_string(), &HighStorageResolution::from(NoMetric::from(m))),
+                        4 => w.value(js(it, "name", "").to_string(), &NoMetric::from(HighStorageResolution::from(m))),
+                        5 => w.value(js(it, "name", "").to_string(), &HighStorageResolution::<HighStorageResolution<GenMetric>>::from(HighStorageResolution::from(m))),
                         _ => w.value(js(it, "name", "").to_string(), &m),
                     }
                 }
@@ -236,7 +244,7 @@ pub fn gen_entry(rng: &mut Rng, cfg: &J, allow_defect: bool, allow_huge: bool) -
             obs.push(json!({"t":"u","v": rng.below(100)}));
         }
         let dims = if split && rng.chance(0.6) { json!([["shard", format!("s{}", rng.below(3))]]) } else if !split && rng.chance(0.08) { json!([["shard", "s0"]]) } else { json!([]) };
-        items.push(json!({"k":"metric","name": format!("M{i}"),"obs":obs,"unit": rng.below(8),"dims":dims,"flag": *rng.pick(&[0u64, 0, 0, 1, 2])}));
+        items.push(json!({"k":"metric","name": format!("M{i}"),"obs":obs,"unit": rng.below(8),"dims":dims,"flag": *rng.pick(&[0u64, 0, 0, 0, 1, 2, 3, 4, 5])}));
     }
     for i in 0..rng.below(3) {
         items.push(json!({"k":"str","name": format!("S{i}"),"text": *rng.pick(&WEIRD)}));
@@ -245,7 +253,16 @@ pub fn gen_entry(rng: &mut Rng, cfg: &J, allow_defect: bool, allow_huge: bool) -
         items.push(json!({"k":"huge","name":"Huge","len": 2_000_000 + rng.below(1_000_000)}));
     }
     if allow_defect && rng.chance(0.2) {
-        match rng.below(7) {
+        match rng.below(11) {
+            7 => items.push(json!({"k":"str","name":"S0","text":"again"})), // a string field written twice (or once, if there is no S0)
+            8 => items.push(json!({"k":"str","name":"M0","text":"a string under a metric's name"})),
+            9 => items.push(json!({"k":"metric","name":"Bad","obs":[{"t":"err"}],"unit":0,"dims":[],"flag":0})), // the value itself reports an error
+            10 => {
+                // a declared dimension written twice
+                if let Some(d) = cfg_dim_names(cfg).first() {
+                    items.push(json!({"k":"str","name":d,"text":"twice"}));
+                }
+            }
             0 => items.push(json!({"k":"metric","name":"M0","obs":[{"t":"u","v":1}],"unit":0,"dims":[],"flag":0})), // duplicate name
             1 => items.push(json!({"k":"ts","ms": 5})),                                                                // second timestamp
             2 => items.push(json!({"k":"metric","name":"","obs":[{"t":"u","v":1}],"unit":0,"dims":[],"flag":0})),    // empty name
@@ -1436,7 +1453,7 @@ impl Scenario for EmfHistory {
             } else {
                 J::Null
             };
-            let sample = if jb(&cfg, "sampled", false) && rng.chance(0.7) { json!([*rng.pick(&[1.0, 0.5, 0.25, 0.001]), rng.next_u64()]) } else { J::Null };
+            let sample = if jb(&cfg, "sampled", false) && rng.chance(0.7) { json!([*rng.pick(&[1.0, 0.5, 0.25, 0.001, 0.001, 0.0, -0.5]), rng.next_u64()]) } else { J::Null };
             // now and then the long-lived formatter is replaced by its own clone (same configuration, a history)
             calls.push(json!({"entry": entry, "fault": fault, "sample": sample, "clone_first": rng.chance(0.06)}));
         }
